@@ -239,7 +239,9 @@ func (c *httpsCloner) putKV(kv dns.SVCBKeyValue) {
 // putIPs returns the underlying arrays of ips into c if possible.
 func (c *httpsCloner) putIPs(ips []net.IP) {
 	for _, ip := range ips {
-		if cap(ip) >= 16 {
+		// Only pool the arrays that are exactly 16 bytes long, since larger ones
+		// may be shared between several addresses of a decoded message.
+		if cap(ip) == 16 {
 			c.ip.Put((*[16]byte)(ip[:16]))
 		}
 	}
